@@ -91,6 +91,8 @@ def plane_transform_rule(cx):
 
 
 def plane_intersection_distance_rule(cx):
+    from rules.C19 import plane3_rules
+    plane3_rules(cx)
     b = cx.fn('geom3::plane3::Plane3::intersection_distance')
     if not b:
         return
